@@ -6,6 +6,7 @@ import FfcxModel.Driver.Loop
 import FfcxModel.Driver.Exec
 import FfcxModel.Driver.Simp
 import FfcxModel.Driver.Static
+import FfcxModel.Driver.Scope
 
 open Ffcx
 
@@ -22,6 +23,7 @@ def dispatch (req : Sexp) : Except String Sexp :=
     | "hop" => Driver.handleHop args
     | "hopmod" => Driver.handleHopMod args
     | "scoped" => Driver.handleScoped args
+    | "scopecert" => Driver.handleScopeCert args
     | "mentions" => Driver.handleMentions args
     | "floatprod" => Driver.handleFloatProd args
     | "miglobal" => Driver.handleMiGlobal args
